@@ -11,7 +11,8 @@ PROP_MODULE = "Pff.Props.C16"
 THEOREMS = ["Pff.Rfigc.C16_remove_only_missing", "Pff.Rfigc.C16_append_once", "Pff.Rfigc.C16_initial_consistent",
             "Pff.Rfigc.C16_converge", "Pff.Rfigc.C16_stale_witness",
             "Pff.Csv.C05_csv_roundtrip",
-            "Pff.Csv.C16_csv_append"]
+            "Pff.Csv.C16_csv_append",
+            "Pff.Csv.C05_db_roundtrip"]
 MODELLED = [("pyFileFixity/rfigc.py", "main"), ("pyFileFixity/lib/_compat.py", "_csv_writer")]
 TRUSTED_BASE = [
     "Lean 4.33.0 kernel; axioms per theorem under coverage.theorems (subset of propext, Classical.choice, Quot.sound)",
